@@ -465,7 +465,15 @@ def build(template_path, repo, variant="strict", inline=None):
         for kind in ("assume(", "admit(", "external_body", "assume_specification", "external_type_specification",
                      "verifier::truncate", "external_fn_specification", "verifier::external", "unsafe "):
             if kind in code:
-                res.trusted.append((kind.rstrip("("), ln, t.strip()[:140]))
+                desc = t.strip()
+                if desc.startswith("#["):
+                    # an attribute line: name the item it is attached to
+                    for q in range(ln, min(ln + 4, len(out))):
+                        nxt = out[q][0].strip()
+                        if nxt and not nxt.startswith("#[") and not nxt.startswith("//"):
+                            desc += " " + nxt
+                            break
+                res.trusted.append((kind.rstrip("("), ln, desc[:160]))
                 break
     return res
 
